@@ -23,6 +23,11 @@ INT_RANGE = {"bool": (0, 1), "char": (-128, 127), "signed char": (-128, 127), "u
 STRS = ["", "a", "hello world", "x" * 200, "café €", "a\"b\\c", "  lead", "%s%n", "0"]
 
 
+def CID(q):
+    import re
+    return re.sub(r"\W+", "_", q)
+
+
 def tkind(t):
     return t["k"] + (":" + t.get("mode", "") if t["k"] == "obj" else "") + (":" + t["c"] if t["k"] in ("int", "float") else "")
 
@@ -79,7 +84,7 @@ class Driver:
         return self.lib.vf_iid(ctypes.c_void_p(p)) if p else 0
 
     def state(self, q, p):
-        f = getattr(self.lib, "vf_state_" + q.replace("::", "_"))
+        f = getattr(self.lib, "vf_state_" + CID(q))
         f.restype = ctypes.c_ulonglong
         f.argtypes = [ctypes.c_void_p]
         return f(p)
@@ -340,7 +345,7 @@ class Driver:
         dq, p, alive = self.rng.choice(cands)
         h = self.rng.choice(alive)
         for d, b in p:
-            f = getattr(self.lib, "vf_cast_%s__%s" % (d.replace("::", "_"), b.replace("::", "_")), None)
+            f = getattr(self.lib, "vf_cast_%s__%s" % (CID(d), CID(b)), None)
             if f is None:
                 return None, None
             f.restype = ctypes.c_void_p
@@ -470,7 +475,7 @@ class Driver:
                 if not alive and not mm["static"]:
                     continue
                 t = mm["type"]
-                peek = getattr(self.lib, "vf_peek_%s_%s" % (c["qname"].replace("::", "_"), mm["name"]))
+                peek = getattr(self.lib, "vf_peek_%s_%s" % (CID(c["qname"]), mm["name"]))
                 peek.argtypes = [ctypes.c_void_p]
                 peek.restype = {"int": ctypes.c_longlong, "bool": ctypes.c_longlong, "float": ctypes.c_double,
                                 "string": ctypes.c_char_p}[t["k"]]
@@ -505,7 +510,7 @@ class Driver:
         if e is None or not alive:
             return
         n = mm["array"]
-        peek = getattr(self.lib, "vf_peekat_%s_%s" % (c["qname"].replace("::", "_"), mm["name"]), None)
+        peek = getattr(self.lib, "vf_peekat_%s_%s" % (CID(c["qname"]), mm["name"]), None)
         if peek is None:
             return
         peek.argtypes = [ctypes.c_void_p, ctypes.c_int]
@@ -565,7 +570,7 @@ class Driver:
                 alive = [h for h in self.pool[c["qname"]] if h not in self.dead]
                 if not alive:
                     continue
-                nat = getattr(self.lib, "vf_cast_%s__%s" % (c["qname"].replace("::", "_"), bt["scoped_name"].replace("::", "_")), None)
+                nat = getattr(self.lib, "vf_cast_%s__%s" % (CID(c["qname"]), CID(bt["scoped_name"])), None)
                 if nat is None:
                     continue
                 nat.restype = ctypes.c_void_p
